@@ -180,6 +180,8 @@ def _worker(job):
         if job.opts.get('monitor_alloc'):
             ex.monitor_alloc = True
             ex.escape_lines = _ESCAPES
+        if job.opts.get('slowpath'):
+            ses.use_slowpath()
         if job.opts.get('glue'):
             ses.use_glue()
         if job.opts.get('cost_mode'):
